@@ -234,6 +234,9 @@ impl Node {
     pub async fn quiesce(&mut self) -> R<()> {
         let start = Instant::now();
         loop {
+            // read the counter BEFORE draining: if it was zero, every send had completed
+            // before the drain below started, so the drain sees everything
+            let pending_before = verif::pending();
             let mut moved = false;
             while let Ok(x) = self.rx_bcast.try_recv() {
                 moved = true;
@@ -254,7 +257,7 @@ impl Node {
                 moved = true;
                 self.clear_backlog.push(x);
             }
-            if !moved && verif::pending() <= 0 {
+            if !moved && pending_before <= 0 {
                 break;
             }
             if start.elapsed() > Duration::from_secs(60) {
